@@ -77,7 +77,11 @@ def build_units(pid, units, want_fuzz, want_enum, log):
             for s in u.liba:
                 o = os.path.join(ud, '%s_%s.o' % (vn, os.path.basename(s).replace('.', '_')))
                 src = os.path.join(REPO, 'src', s)
-                if s.endswith('.c'):
+                if s.startswith('wrap:'):
+                    # a file of /verif/exec that #includes a library source after overriding compiler-feature macros
+                    src = os.path.join(VERIF, 'exec', s[5:])
+                    cmd = ['clang', '-std=gnu11', '-Wno-builtin-macro-redefined'] + vflags + REPOFLAGS + u.defs + inc + ['-I', os.path.join(REPO, 'src'), '-c', src, '-o', o]
+                elif s.endswith('.c'):
                     cmd = ['clang', '-std=gnu11'] + vflags + REPOFLAGS + u.defs + inc + ['-c', src, '-o', o]
                 else:
                     cmd = ['clang++', '-std=gnu++17'] + vflags + REPOFLAGS + u.defs + inc + ['-c', src, '-o', o]
